@@ -85,4 +85,59 @@ theorem coeff0_negMul {N : Nat} (a b : Poly) (ha : a.length = N) (hb : b.length 
     Nat.add_sub_cancel, Finset.sum_neg_distrib]
   ring
 
+/-! ### 2. the `σ_{-1}` embedding of an LWE secret -/
+
+/-- `-1` is an admissible Galois element for every degree `N > 0` (`(-1) mod 2N = 2N-1`) -/
+theorem galOk_neg_one {N : Nat} (hN : 0 < N) : GalOk (-1) N := by
+  refine ⟨by decide, ?_⟩
+  have e : ((-1 : Int) % (2 * (N : Int))).toNat = 2 * N - 1 := by
+    rw [emod_shift (-1) (2 * (N : Int)) 1 (by omega) (by omega)]; omega
+  rw [e]
+  have h : 2 * N - 1 = (N - 1) + N := by omega
+  rw [h, Nat.coprime_add_self_left]
+  have h2 : N = (N - 1) + 1 := by omega
+  rw [Nat.coprime_comm]
+  conv_lhs => rw [h2]
+  simp
+
+/-- extension form of `σ_{-1}`: coefficient `k` of `σ_{-1} a` is coefficient `-k` of `a` -/
+theorem coeffZ_σ_neg_one (a : Poly) (hn : 0 < a.length) (k : Int) :
+    coeffZ id (AutoMul.σ (-1) a) k = coeffZ id a (-k) := by
+  have := AutoMul.σ_coeffZ (-1) a hn (galOk_neg_one hn) (-k)
+  rwa [show -k * -1 = k by ring] at this
+
+/-- coefficients of `σ_{-1} a`: `a_0`, then `-a_{N-i}` for `0 < i < N` -/
+theorem σ_neg_one_getD (a : Poly) (i : Nat) (hi : i < a.length) :
+    (AutoMul.σ (-1) a).getD i 0 = if i = 0 then a.getD 0 0 else -(a.getD (a.length - i) 0) := by
+  have hn : 0 < a.length := by omega
+  rw [← coeffZ_of_lt id _ i (by rw [AutoMul.σ_length]; exact hi), coeffZ_σ_neg_one a hn]
+  have := coeffZ_sub a 0 i hn hi
+  rw [show ((0 : Nat) : Int) - (i : Int) = -(i : Int) by simp] at this
+  rw [this]
+  by_cases h0 : i = 0
+  · subst h0; simp
+  · have : ¬ i ≤ 0 := by omega
+    simp [this, h0]
+
+/-- **the LWE inner product is the constant coefficient of the GLWE product with the
+`σ_{-1}`-embedded secret** -/
+theorem coeff0_negMul_σ {N : Nat} (s a : Poly) (hs : s.length = N) (ha : a.length = N) (hN : 0 < N) :
+    (Hal.negMul (AutoMul.σ (-1) s) a).getD 0 0 = ∑ j ∈ Finset.range N, s.getD j 0 * a.getD j 0 := by
+  have hσ : (AutoMul.σ (-1) s).length = N := by rw [AutoMul.σ_length, hs]
+  rw [coeff0_negMul _ a hσ ha hN, σ_neg_one_getD s 0 (by omega)]
+  obtain ⟨M, rfl⟩ : ∃ M, N = M + 1 := ⟨N - 1, by omega⟩
+  simp only [if_true, Nat.add_sub_cancel]
+  rw [Finset.sum_range_succ' (fun j => s.getD j 0 * a.getD j 0) M]
+  have e : ∀ i ∈ Finset.range M,
+      (AutoMul.σ (-1) s).getD (i + 1) 0 * a.getD (M + 1 - (i + 1)) 0
+        = -(s.getD ((M - 1 - i) + 1) 0 * a.getD ((M - 1 - i) + 1) 0) := by
+    intro i hi
+    have hi' : i < M := Finset.mem_range.mp hi
+    rw [σ_neg_one_getD s (i + 1) (by omega), hs]
+    have e1 : M + 1 - (i + 1) = M - 1 - i + 1 := by omega
+    simp [e1]
+  rw [Finset.sum_congr rfl e, Finset.sum_neg_distrib,
+    Finset.sum_range_reflect (fun j => s.getD (j + 1) 0 * a.getD (j + 1) 0) M]
+  ring
+
 end LweIdx
